@@ -14,6 +14,8 @@ pub fn scenario(tier: &str) -> (Life, Bounds) {
         sector_sets: if th { sets_all() } else { sets_small() },
         known_open: mcx::evidence::known_open("C02"),
         property: "C02",
+        poor: None,
+        money_devs: false,
     };
     let b = if th {
         Bounds { max_depth: 400, wall_cap_s: 1500.0, ..Default::default() }
